@@ -6436,6 +6436,7 @@ class Path(Shape, MutableSequence):
         if len(self._segments) == 0:
             return
         prepoint = None
+        complete = isinstance(self._segments[0], Move)  # a path, not a fragment of one
         if isinstance(self._segments[0], Move):
             # Only a move's start is a mere back link, any other segment starts the geometry there.
             prepoint = self._segments[0].start
@@ -6447,8 +6448,9 @@ class Path(Shape, MutableSequence):
         for subpath in reversed(subpaths):
             if not isinstance(subpath[0], Move) and subpath[0].start is not None:
                 # A subpath without its own move began at the then current point, it needs one now.
-                # Leading an open fragment it stays implied, a close must have a move to return to.
-                if len(p) != 0 or isinstance(subpath[-1], Close):
+                # Leading an open fragment it stays implied, a close must have a move to return to,
+                # and a path that started with a move still does.
+                if len(p) != 0 or isinstance(subpath[-1], Close) or complete:
                     p.append(Move(end=subpath[0].start))
             p += subpath
         self._segments = p._segments
